@@ -43,7 +43,13 @@ type promotionContext struct {
 // children try to promote it again (idempotent — children would
 // classify it as having no remaining uses).
 func promoteBlocks(ctx *promotionContext, blk *[]ir.Statement) {
-	promoteWithinBlock(ctx, blk)
+	promoteBlocksIn(ctx, blk, false)
+}
+
+// promoteBlocksIn is promoteBlocks with the knowledge whether blk lies inside
+// a loop (body or continuing, at any depth) of the function.
+func promoteBlocksIn(ctx *promotionContext, blk *[]ir.Statement, inLoop bool) {
+	promoteWithinBlock(ctx, blk, inLoop)
 	// Recurse into nested blocks. We rebuild nested-block slices
 	// when promotion deletes statements; afterward we write the
 	// new slice back into the parent statement so subsequent
@@ -52,13 +58,13 @@ func promoteBlocks(ctx *promotionContext, blk *[]ir.Statement) {
 		switch sk := (*blk)[i].Kind.(type) {
 		case ir.StmtBlock:
 			b := []ir.Statement(sk.Block)
-			promoteBlocks(ctx, &b)
+			promoteBlocksIn(ctx, &b, inLoop)
 			(*blk)[i].Kind = ir.StmtBlock{Block: ir.Block(b)}
 		case ir.StmtIf:
 			a := []ir.Statement(sk.Accept)
 			r := []ir.Statement(sk.Reject)
-			promoteBlocks(ctx, &a)
-			promoteBlocks(ctx, &r)
+			promoteBlocksIn(ctx, &a, inLoop)
+			promoteBlocksIn(ctx, &r, inLoop)
 			(*blk)[i].Kind = ir.StmtIf{
 				Condition: sk.Condition,
 				Accept:    ir.Block(a),
@@ -67,8 +73,8 @@ func promoteBlocks(ctx *promotionContext, blk *[]ir.Statement) {
 		case ir.StmtLoop:
 			b := []ir.Statement(sk.Body)
 			c := []ir.Statement(sk.Continuing)
-			promoteBlocks(ctx, &b)
-			promoteBlocks(ctx, &c)
+			promoteBlocksIn(ctx, &b, true)
+			promoteBlocksIn(ctx, &c, true)
 			(*blk)[i].Kind = ir.StmtLoop{
 				Body:       ir.Block(b),
 				Continuing: ir.Block(c),
@@ -79,7 +85,7 @@ func promoteBlocks(ctx *promotionContext, blk *[]ir.Statement) {
 			copy(cases, sk.Cases)
 			for ci := range cases {
 				cb := []ir.Statement(cases[ci].Body)
-				promoteBlocks(ctx, &cb)
+				promoteBlocksIn(ctx, &cb, inLoop)
 				cases[ci].Body = ir.Block(cb)
 			}
 			(*blk)[i].Kind = ir.StmtSwitch{Selector: sk.Selector, Cases: cases}
@@ -89,7 +95,7 @@ func promoteBlocks(ctx *promotionContext, blk *[]ir.Statement) {
 
 // promoteWithinBlock identifies and promotes variables whose entire
 // set of uses lives inside blk. Returns silently if no candidates.
-func promoteWithinBlock(ctx *promotionContext, blk *[]ir.Statement) {
+func promoteWithinBlock(ctx *promotionContext, blk *[]ir.Statement, inLoop bool) {
 	// Step 1: count uses per variable inside this block only.
 	localStores, localLoads := countLocalUses(ctx, blk)
 	if len(localStores) == 0 && len(localLoads) == 0 {
@@ -99,6 +105,17 @@ func promoteWithinBlock(ctx *promotionContext, blk *[]ir.Statement) {
 	// Step 2: select candidates whose global use counts match the
 	// in-block counts (all stores and all loads contained here).
 	candidates := selectBlockCandidates(ctx, localStores, localLoads)
+	if inLoop {
+		// The block runs once per iteration of an enclosing loop. A load that
+		// precedes every store of the block reads the value left by the
+		// previous iteration, not the variable's initial value, so such a
+		// variable cannot be promoted without a loop-header phi.
+		for v := range candidates {
+			if !firstUseIsStore(ctx, blk, v) {
+				delete(candidates, v)
+			}
+		}
+	}
 	if len(candidates) == 0 {
 		return
 	}
@@ -138,6 +155,26 @@ func countLocalUses(ctx *promotionContext, blk *[]ir.Statement) (stores, loads m
 		}
 	}
 	return stores, loads
+}
+
+// firstUseIsStore reports whether, in textual order within blk, variable v is
+// stored before it is first loaded.
+func firstUseIsStore(ctx *promotionContext, blk *[]ir.Statement, v uint32) bool {
+	for i := range *blk {
+		switch sk := (*blk)[i].Kind.(type) {
+		case ir.StmtStore:
+			if sv, ok := ctx.localPtrs[sk.Pointer]; ok && sv == v {
+				return true
+			}
+		case ir.StmtEmit:
+			for h := sk.Range.Start; h < sk.Range.End; h++ {
+				if lv, ok := loadHandleVar(ctx, h); ok && lv == v {
+					return false
+				}
+			}
+		}
+	}
+	return false
 }
 
 // loadHandleVar returns the variable index a given expression
